@@ -4,6 +4,7 @@ import (
 	"errors"
 	"fmt"
 	"maps"
+	"reflect"
 
 	"github.com/kaptinlin/gozod/core"
 	"github.com/kaptinlin/gozod/internal/checks"
@@ -69,15 +70,23 @@ func (z *ZodDiscriminatedUnion[T, R]) Parse(input any, ctx ...*core.ParseContext
 		}
 	}
 
-	if input == nil && (z.internals.Nilable || z.internals.Optional) {
-		return zero, nil
-	}
-
-	if input == nil {
-		if z.internals.DefaultFunc != nil {
-			input = z.internals.DefaultFunc()
-		} else if z.internals.DefaultValue != nil {
-			input = engine.CloneDefaultValue(z.internals.DefaultValue)
+	// Nil input (untyped nil or a nil pointer): Default > Prefault > Optional/Nilable > type error,
+	// as engine.processModifiersCore decides it for every other type. The default is returned as it
+	// is (no validation); the prefault goes through the full validation below.
+	if isNilDUInput(input) {
+		switch {
+		case z.internals.DefaultValue != nil:
+			return convertToDiscriminatedUnionConstraintType[T, R](engine.CloneDefaultValue(z.internals.DefaultValue)), nil
+		case z.internals.DefaultFunc != nil:
+			return convertToDiscriminatedUnionConstraintType[T, R](z.internals.DefaultFunc()), nil
+		case z.internals.PrefaultValue != nil:
+			input = engine.CloneDefaultValue(z.internals.PrefaultValue)
+		case z.internals.PrefaultFunc != nil:
+			input = z.internals.PrefaultFunc()
+		case z.internals.Nilable || z.internals.Optional:
+			return zero, nil
+		default:
+			return zero, issues.CreateInvalidTypeError(core.ZodTypeObject, nil, pctx)
 		}
 	}
 
@@ -110,6 +119,15 @@ func (z *ZodDiscriminatedUnion[T, R]) Parse(input any, ctx ...*core.ParseContext
 	}
 
 	return convertToDiscriminatedUnionConstraintType[T, R](r), nil
+}
+
+// isNilDUInput reports whether input is an untyped nil or a nil pointer.
+func isNilDUInput(input any) bool {
+	if input == nil {
+		return true
+	}
+	rv := reflect.ValueOf(input)
+	return rv.Kind() == reflect.Pointer && rv.IsNil()
 }
 
 // parseVariant dispatches to the matching schema or falls back to trying all options.
